@@ -22,7 +22,7 @@ contract(B + "prices.Prices.convert", props=P, types={"amount": "Real"}, returns
 # ---------------------------------------------------------------------------------------------------------------------
 L = B + "lending.base.Loan."
 specfun("loan_wf", ["l"], "l._borrowed_amount > 0 and forall(lambda s=Str: at(l._paid_interest, s) >= 0)")
-contract(L + "__init__", props=P, types={"id": "Str", "borrowed_symbol": "Str", "borrowed_amount": "Real"},
+contract(L + "__init__", props=P, types={"id": "Id", "borrowed_symbol": "Str", "borrowed_amount": "Real"},
          ensures=[("fields", "self._id == id and self._borrowed_symbol == borrowed_symbol and self._borrowed_amount == borrowed_amount "
                              "and self._is_open and self._created_at == created_at "
                              "and forall(lambda s=Str: not (s in self._paid_interest)) and fresh(self._paid_interest)"),
@@ -110,10 +110,10 @@ LM = B + "loan_mgr.LoanManager."
 specfun("acc_of", ["m"], "m._ctx.account_balances")
 specfun("cfg_all_symbols", ["c"], "forall(lambda s=Str: cfg_has_symbol(c, s))")
 specfun("lm_acc", ["m"], "rules_ok(acc_of(m)) and wf_account(acc_of(m)) and prices_wf(m._ctx.prices) and lending_wf(m._lending_strategy)")
-specfun("lm_coll_dom", ["m"], "forall(lambda k=Str: (k in m._collateral_by_loan) == ((k in m._loans._items) and m._loans._items[k]._is_open))")
-specfun("lm_coll_nonneg", ["m"], "forall(lambda k=Str, s=Str: implies(k in m._collateral_by_loan, at(m._collateral_by_loan[k], s) >= 0 "
+specfun("lm_coll_dom", ["m"], "forall(lambda k=Id: (k in m._collateral_by_loan) == ((k in m._loans._items) and m._loans._items[k]._is_open))")
+specfun("lm_coll_nonneg", ["m"], "forall(lambda k=Id, s=Str: implies(k in m._collateral_by_loan, at(m._collateral_by_loan[k], s) >= 0 "
                                  "and implies(m._loans._items[k].no_collateral, not (s in m._collateral_by_loan[k]))))")
-specfun("lm_loans_wf", ["m"], "forall(lambda k=Str: implies(k in m._loans._items, m._loans._items[k]._id == k and loan_wf(m._loans._items[k]) and loan_cond_wf(m._loans._items[k])))")
+specfun("lm_loans_wf", ["m"], "forall(lambda k=Id: implies(k in m._loans._items, m._loans._items[k]._id == k and loan_wf(m._loans._items[k]) and loan_cond_wf(m._loans._items[k])))")
 specfun("lm_inv", ["m"], "lm_acc(m) and lm_coll_dom(m) and lm_coll_nonneg(m) and lm_loans_wf(m)")
 LM_INV = [("inv_acc", "lm_acc(self)"), ("inv_coll_dom", "lm_coll_dom(self)"), ("inv_coll_nonneg", "lm_coll_nonneg(self)"), ("inv_loans_wf", "lm_loans_wf(self)")]
 # the simulated clock is available (a loan can only be created / repaid while an event is being handled)
@@ -122,7 +122,7 @@ specfun("now_of", ["m"], "m._ctx.dispatcher._last_dt")
 
 ACC_MOD = ["self._ctx.account_balances.balances", "self._ctx.account_balances.holds", "self._ctx.account_balances.borrowed"]
 
-contract(LM + "_get_open_loan", props=P, returns="Loan", modifies=[], types={"loan_id": "Str"},
+contract(LM + "_get_open_loan", props=P, returns="Loan", modifies=[], types={"loan_id": "Id"},
          ensures=[("found", "(loan_id in self._loans._items) and same_object(result, self._loans._items[loan_id]) and result._is_open and result._id == loan_id")],
          raises={"NotFound!": [("unknown", "not (loan_id in self._loans._items)")],
                  "Error!": [("closed", "(loan_id in self._loans._items) and not self._loans._items[loan_id]._is_open")]})
@@ -149,7 +149,7 @@ contract(LM + "create_loan", props=P, types={"symbol": "Str", "amount": "Real"},
                   ("borrowed", "forall(lambda s=Str: at(acc_of(self).borrowed, s) == old(at(acc_of(self).borrowed, s)) + (amount if s == symbol else 0))"),
                   ("holds", "forall(lambda s=Str: at(acc_of(self).holds, s) == old(at(acc_of(self).holds, s)) + at(self._collateral_by_loan[result.id], s))"),
                   ("no_collateral", "implies(self._lending_strategy.no_collateral, self._loans._items[result.id].no_collateral)"),
-                  ("others", "forall(lambda k=Str: implies(k != result.id, ((k in self._loans._items) == old(k in self._loans._items)) "
+                  ("others", "forall(lambda k=Id: implies(k != result.id, ((k in self._loans._items) == old(k in self._loans._items)) "
                              "and implies(k in self._loans._items, same_object(self._loans._items[k], old(self._loans._items[k])))))"),
                   ("amount_pos", "amount > 0")],
          raises={"Error": [("account", "unchanged(acc_of(self))"),
@@ -161,7 +161,7 @@ REPAY_RAISES = {"Error": [("account", "unchanged(acc_of(self))"),
                           ("loans", "content_unchanged(self._loans._items, self._loans._open_items, self._collateral_by_loan) and unchanged(self._loans)"),
                           ("loan_untouched", "implies(loan_id in self._loans._items, unchanged(self._loans._items[loan_id]) "
                                              "and content_unchanged(self._loans._items[loan_id]._paid_interest))")]}
-contract(LM + "repay_loan", props=P + ["C11"], types={"loan_id": "Str"},
+contract(LM + "repay_loan", props=P + ["C11"], types={"loan_id": "Id"},
          requires=[("inv", "lm_inv(self)"), ("cfg", "cfg_all_symbols(self._ctx.config)"),
                    ("clock", "implies((loan_id in self._loans._items) and self._loans._items[loan_id]._is_open, "
                              "clock_ok(self) and now_of(self) >= self._loans._items[loan_id]._created_at)")],
@@ -182,7 +182,7 @@ contract(LM + "repay_loan", props=P + ["C11"], types={"loan_id": "Str"},
          modifies=ACC_MOD + ["self._loans._items[loan_id]._is_open", "content(self._loans._items[loan_id]._paid_interest)",
                              "content(self._collateral_by_loan)", "GHOST.ledger"])
 
-contract(LM + "cancel_loan", props=P, types={"loan_id": "Str"},
+contract(LM + "cancel_loan", props=P, types={"loan_id": "Id"},
          requires=[("inv", "lm_inv(self)")],
          ensures=LM_INV + [
                   ("was_open", "(loan_id in self._loans._items) and old(self._loans._items[loan_id]._is_open)"),
@@ -207,7 +207,7 @@ contract(LM + "get_loans", props=P + ["C11"], trusted=True, returns="List[LoanIn
                             "(seq_at(result, i).id in self._loans._items) and loan_info_mirrors(seq_at(result, i), self._loans._items[seq_at(result, i).id]) "
                             "and loan_matches(self._loans._items[seq_at(result, i).id], borrowed_symbol, is_open)))"),
                   # ... each matching loan exactly once
-                  ("complete", "forall(lambda k=Str: implies((k in self._loans._items) and loan_matches(self._loans._items[k], borrowed_symbol, is_open), "
+                  ("complete", "forall(lambda k=Id: implies((k in self._loans._items) and loan_matches(self._loans._items[k], borrowed_symbol, is_open), "
                                "exists(lambda i=Int: 0 <= i and i < seq_len(result) and seq_at(result, i).id == k)))"),
                   ("nodup", "forall(lambda i=Int, j=Int: implies(0 <= i and i < j and j < seq_len(result), seq_at(result, i).id != seq_at(result, j).id))")],
          raises={"Error": []},
@@ -215,7 +215,7 @@ contract(LM + "get_loans", props=P + ["C11"], trusted=True, returns="List[LoanIn
 specfun("loan_matches", ["l", "sym", "op"], "(is_none(sym) or l._borrowed_symbol == sym) and (is_none(op) or l._is_open == op)")
 specfun("loan_info_mirrors", ["i", "l"], "i.id == l._id and i.is_open == l._is_open and i.borrowed_symbol == l._borrowed_symbol and i.borrowed_amount == l._borrowed_amount")
 
-contract(ML + "__init__", props=P, types={"id": "Str", "borrowed_symbol": "Str", "borrowed_amount": "Real"},
+contract(ML + "__init__", props=P, types={"id": "Id", "borrowed_symbol": "Str", "borrowed_amount": "Real"},
          ensures=[("fields", "self._id == id and self._borrowed_symbol == borrowed_symbol and self._borrowed_amount == borrowed_amount "
                              "and self._is_open and self._created_at == created_at and same_object(self._conditions, conditions) "
                              "and forall(lambda s=Str: not (s in self._paid_interest)) and fresh(self._paid_interest)"),
